@@ -17,10 +17,16 @@ pub fn lsp_command(args: &LspArgs) -> MosResult<()> {
     let lsp = LspServer::new(ctx);
     let mut dbg = DebugServer::new(lsp.context());
     dbg.start(args.debug_adapter_port)?;
+    #[cfg(datatrash_mos_verif)]
+    crate::verif_dbg::event("life", "\"what\":\"dbg_started\",\"n\":0");
 
     lsp.start()?;
     log::info!("LSP ended");
+    #[cfg(datatrash_mos_verif)]
+    crate::verif_dbg::event("life", "\"what\":\"dbg_join_enter\",\"n\":0");
     dbg.join()?;
+    #[cfg(datatrash_mos_verif)]
+    crate::verif_dbg::event("life", "\"what\":\"dbg_join_return\",\"n\":0");
     log::info!("DBG ended");
 
     Ok(())
